@@ -70,12 +70,13 @@ structure Civil where
   wday : Nat        -- Monday = 0
 deriving Repr, DecidableEq
 
+/-- the civil time from a calendar date, the second of the day and the ordinal -/
+def civilFrom (ymd : Nat × Nat × Nat) (s ord : Nat) : Civil :=
+  ⟨ymd.1, ymd.2.1, ymd.2.2, s / 3600, s % 3600 / 60, s % 60, (ord + 6) % 7⟩
+
 /-- `datetime.fromtimestamp(t, utc)` for `t ≥ 0` -/
 def civilOf (t : Nat) : Civil :=
-  let ord := t / 86400 + EPOCH_ORD
-  let ymd := ord2ymd ord
-  let s := t % 86400
-  ⟨ymd.1, ymd.2.1, ymd.2.2, s / 3600, s % 3600 / 60, s % 60, (ord + 6) % 7⟩
+  civilFrom (ord2ymd (t / 86400 + EPOCH_ORD)) (t % 86400) (t / 86400 + EPOCH_ORD)
 
 /-- `datetime(...).replace(tzinfo=utc).timestamp()` for dates from 1970 on -/
 def timestampOf (y m d hh mm ss : Nat) : Nat :=
